@@ -643,6 +643,10 @@ func (p *G1Affine) setBytes(buf []byte, subGroupCheck bool) (int, error) {
 	} else {
 		// Y "<=" -Y
 		if mData == mCompressedLargest {
+			if Y.IsZero() {
+				// Y = -Y = 0 is encoded with the "smallest" flag
+				return 0, errors.New("invalid compressed coordinate: largest flag set for Y = 0")
+			}
 			Y.Neg(&Y)
 		}
 	}
@@ -684,6 +688,10 @@ func (p *G1Affine) unsafeComputeY(subGroupCheck bool) error {
 	} else {
 		// Y "<=" -Y
 		if mData == mCompressedLargest {
+			if Y.IsZero() {
+				// Y = -Y = 0 is encoded with the "smallest" flag
+				return errors.New("invalid compressed coordinate: largest flag set for Y = 0")
+			}
 			Y.Neg(&Y)
 		}
 	}
